@@ -716,4 +716,110 @@ example : flattenT (.node [.leaf 1, .node [.leaf 2, .node []], .leaf 3]) = [1, 2
     `gradeUp [3, 1, 3, 2] = [1, 3, 0, 2]`, `gradeDown … = [0, 2, 3, 1]` are checked by the driver against the element) -/
 example : (gradeUp [3, 1, 3, 2]).length = 4 := by simp [gradeUp]
 
+/-! ## zip, transpose -/
+
+theorem zipLongest_length : ∀ (a b : List Int), (zipLongest a b).length = max a.length b.length
+  | [], bs => by simp [zipLongest]
+  | a :: as, [] => by simp [zipLongest, zipLongest_length as []]
+  | a :: as, b :: bs => by simp [zipLongest, zipLongest_length as bs] <;> omega
+
+/-- **zip**: item `i` pairs item `i` of both lists, `0` standing in for a list that has ended -/
+theorem zipLongest_get : ∀ (a b : List Int) (i : Nat), i < max a.length b.length →
+    (zipLongest a b)[i]? = some (a.getD i 0, b.getD i 0)
+  | [], bs, i, h => by
+      have hi : i < bs.length := by simpa using h
+      simp [zipLongest, List.getElem?_map, List.getElem?_eq_getElem hi, List.getD_eq_getElem?_getD]
+  | a :: as, [], i, h => by
+      cases i with
+      | zero => simp [zipLongest]
+      | succ i =>
+        have := zipLongest_get as [] i (by simp at h ⊢; omega)
+        simpa [zipLongest] using this
+  | a :: as, b :: bs, i, h => by
+      cases i with
+      | zero => simp [zipLongest]
+      | succ i =>
+        have := zipLongest_get as bs i (by simp at h ⊢; omega)
+        simpa [zipLongest] using this
+
+theorem foldl_max_le (m : List (List Int)) : ∀ (k0 : Nat) (r : List Int), r ∈ m → r.length ≤ m.foldl (fun k r => max k r.length) k0 := by
+  induction m with
+  | nil => intro k0 r h; simp at h
+  | cons x xs ih =>
+    intro k0 r h
+    have mono : ∀ (l : List (List Int)) (a : Nat), a ≤ l.foldl (fun k r => max k r.length) a := by
+      intro l; induction l with
+      | nil => intro a; simp
+      | cons y ys ihy => intro a; simp only [List.foldl_cons]; exact Nat.le_trans (Nat.le_max_left _ _) (ihy _)
+    simp only [List.foldl_cons]
+    rcases List.mem_cons.mp h with rfl | h
+    · exact Nat.le_trans (Nat.le_max_right _ _) (mono xs _)
+    · exact ih _ r h
+
+theorem foldl_max_const (m : List (List Int)) (k : Nat) (h : ∀ r ∈ m, r.length = k) (hm : m ≠ []) :
+    m.foldl (fun a r => max a r.length) 0 = k := by
+  have gen : ∀ (l : List (List Int)) (a : Nat), (∀ r ∈ l, r.length = k) → a ≤ k → l ≠ [] → l.foldl (fun a r => max a r.length) a = k := by
+    intro l
+    induction l with
+    | nil => intro a _ _ hne; exact absurd rfl hne
+    | cons x xs ih =>
+      intro a hl ha _
+      simp only [List.foldl_cons]
+      have hx : x.length = k := hl x (by simp)
+      by_cases hxs : xs = []
+      · subst hxs; simp [hx]; omega
+      · exact ih _ (fun r hr => hl r (by simp [hr])) (by rw [hx]; omega) hxs
+  exact gen m 0 h (Nat.zero_le _) hm
+
+/-- **transpose**: as many columns as the longest row; column `i` is item `i` of every row that has one, in row order -/
+theorem transposeR_spec (m : List (List Int)) :
+    (transposeR m).length = m.foldl (fun k r => max k r.length) 0 ∧
+    ∀ i, i < (transposeR m).length → (transposeR m)[i]? = some (m.filterMap (fun r => r[i]?)) := by
+  refine ⟨by simp [transposeR], ?_⟩
+  intro i hi
+  simp only [transposeR, List.length_map, List.length_range] at hi
+  simp [transposeR, hi]
+
+/-- on a rectangular matrix (every row of length `k > 0`) transposing twice gives the matrix back -/
+theorem transposeR_involutive (m : List (List Int)) (k : Nat) (hk : 0 < k) (hm : m ≠ []) (h : ∀ r ∈ m, r.length = k) :
+    transposeR (transposeR m) = m := by
+  have h1 : m.foldl (fun a r => max a r.length) 0 = k := foldl_max_const m k h hm
+  have hcol : ∀ i, i < k → m.filterMap (fun r => r[i]?) = m.map (fun r => r.getD i 0) := by
+    intro i hi
+    rw [← List.filterMap_eq_map]
+    apply List.filterMap_congr
+    intro r hr
+    have : i < r.length := by rw [h r hr]; exact hi
+    simp [List.getD_eq_getElem?_getD, List.getElem?_eq_getElem this]
+  have ht : transposeR m = (List.range k).map (fun i => m.map (fun r => r.getD i 0)) := by
+    simp only [transposeR, h1]
+    apply List.map_congr_left
+    intro i hi
+    exact hcol i (List.mem_range.mp hi)
+  have hrows : ∀ c ∈ transposeR m, c.length = m.length := by
+    intro c hc; rw [ht] at hc; simp only [List.mem_map] at hc; obtain ⟨i, _, rfl⟩ := hc; simp
+  have hne : transposeR m ≠ [] := by
+    rw [ht]; intro he
+    have := congrArg List.length he
+    simp at this; omega
+  have hmlen : 0 < m.length := List.length_pos_iff.mpr hm
+  have h2 : (transposeR m).foldl (fun a r => max a r.length) 0 = m.length := foldl_max_const _ _ hrows hne
+  apply List.ext_getElem
+  · rw [(transposeR_spec (transposeR m)).1, h2]
+  · intro j hj1 hj2
+    have e : (transposeR (transposeR m))[j] = (transposeR m).filterMap (fun c => c[j]?) := by
+      have := (transposeR_spec (transposeR m)).2 j hj1
+      rw [List.getElem?_eq_getElem hj1] at this
+      exact Option.some.inj this
+    rw [e, ht, List.filterMap_map]
+    have : ∀ i ∈ List.range k, ((fun c : List Int => c[j]?) ∘ fun i => m.map (fun r => r.getD i 0)) i = some (m[j].getD i 0) := by
+      intro i _; simp [List.getElem?_map, List.getElem?_eq_getElem hj2]
+    rw [List.filterMap_congr this, List.filterMap_eq_map']
+    apply List.ext_getElem
+    · simp [h m[j] (List.getElem_mem hj2)]
+    · intro a ha1 ha2
+      simp [List.getD_eq_getElem?_getD, List.getElem?_eq_getElem ha2]
+
+example : transposeR [[1, 2, 3], [4], [5, 6]] = [[1, 4, 5], [2, 6], [3]] ∧ zipLongest [1, 2, 3] [7] = [(1, 7), (2, 0), (3, 0)] := by decide
+
 end C16
